@@ -311,6 +311,11 @@ func (r *intraProxyStreamReceiver) recvReplicationMessages() error {
 			sent := false
 			logged := false
 			for !sent {
+				// The stream may be closed (reconciliation, peer gone) while the local target stream is absent: stop
+				// waiting for it then, or this receiver would never finish.
+				if shutdown.IsShutdown() {
+					return nil
+				}
 				if ch, ok := r.shardManager.GetRemoteSendChan(r.targetShardID); ok {
 					func() {
 						defer func() {
